@@ -116,6 +116,7 @@ type sessCfg struct {
 	seed        int64
 	devDelay    time.Duration
 	closeBeh    string
+	poll        bool
 	extra       []util.Option
 }
 
@@ -138,6 +139,8 @@ func (c sessCfg) pipe(r simdev.Reactor) *simdev.Pipe {
 	if c.closeBeh != "" {
 		p.CloseBehaviour = c.closeBeh
 	}
+
+	p.Poll = c.poll
 
 	return p
 }
